@@ -46,7 +46,8 @@ func (e *Enc) entryEnv() *Env {
 	env := e.newEnv(pkg)
 	if e.ctr != nil && e.fn != nil {
 		names := e.ctr.Params
-		if e.ctr.RecvName != "" {
+		if e.ctr.RecvName != "" && e.fn.Signature.Recv() != nil {
+			// (the contract of a closure is written under its enclosing method's name: it has no receiver itself)
 			names = append([]string{e.ctr.RecvName}, names...)
 		}
 		for i, p := range e.fn.Params {
@@ -1095,7 +1096,7 @@ func (e *Enc) currentParams(env *Env, st *State) {
 		env.vars[p.Name()] = cur
 		if e.ctr != nil {
 			names := e.ctr.Params
-			if e.ctr.RecvName != "" {
+			if e.ctr.RecvName != "" && e.fn.Signature.Recv() != nil {
 				names = append([]string{e.ctr.RecvName}, names...)
 			}
 			if i < len(names) {
